@@ -1,8 +1,10 @@
 import VtModel.Crash
+import VtProofs.FmtBytes
 /-!
 Helper lemmas for C12: positional writes, big-endian prefixes, header regions.
 -/
 namespace VtModel.Crash
+open VtModel.Fmt (Bytes beDec beEnc leDec leEnc)
 
 theorem bind_const_none {α β} (x : Option α) : x.bind (fun _ => (none : Option β)) = none := by
   cases x <;> rfl
@@ -19,12 +21,13 @@ theorem getElem?_zeros (n i : Nat) : (zeros n)[i]?.getD 0 = 0 := by
 /-! ### big-endian values of torn fields -/
 
 theorem foldl_be (acc : Nat) (b : Bytes) :
-    b.foldl (fun acc x => acc * 256 + x) acc = acc * 256 ^ b.length + b.foldl (fun acc x => acc * 256 + x) 0 := by
+    b.foldl (fun acc x => acc * 256 + x.toNat) acc
+      = acc * 256 ^ b.length + b.foldl (fun acc x => acc * 256 + x.toNat) 0 := by
   induction b generalizing acc with
   | nil => simp
   | cons x xs ih =>
     simp only [List.foldl_cons, List.length_cons]
-    rw [ih (acc * 256 + x), ih (0 * 256 + x), Nat.pow_succ]
+    rw [ih (acc * 256 + x.toNat), ih (0 * 256 + x.toNat), Nat.pow_succ]
     simp only [Nat.zero_mul, Nat.zero_add, Nat.add_mul]
     rw [Nat.mul_assoc, Nat.mul_comm 256 (256 ^ xs.length)]
     omega
@@ -33,7 +36,7 @@ theorem beDec_append (a b : Bytes) : beDec (a ++ b) = beDec a * 256 ^ b.length +
   simp only [beDec, List.foldl_append]
   exact foldl_be _ b
 
-theorem beDec_cons (x : Nat) (xs : Bytes) : beDec (x :: xs) = x * 256 ^ xs.length + beDec xs := by
+theorem beDec_cons (x : UInt8) (xs : Bytes) : beDec (x :: xs) = x.toNat * 256 ^ xs.length + beDec xs := by
   have := beDec_append [x] xs
   simpa [beDec] using this
 
@@ -50,16 +53,17 @@ theorem beDec_eq_zero {b : Bytes} (h : beDec b = 0) : b = zeros b.length := by
   | cons x xs ih =>
     rw [beDec_cons] at h
     have hp : 0 < 256 ^ xs.length := Nat.pow_pos (by omega)
-    have hx : x = 0 := by
-      rcases Nat.eq_zero_or_pos x with h0 | h0
+    have hx : x.toNat = 0 := by
+      rcases Nat.eq_zero_or_pos x.toNat with h0 | h0
       · exact h0
-      · have : 0 < x * 256 ^ xs.length := Nat.mul_pos h0 hp
+      · have : 0 < x.toNat * 256 ^ xs.length := Nat.mul_pos h0 hp
         omega
-    subst hx
+    have hx0 : x = 0 := UInt8.toNat_inj.mp (by simpa using hx)
+    subst hx0
     have hb : beDec xs = 0 := by simpa using h
     have := ih hb
     simp only [List.length_cons, zeros, List.replicate_succ]
-    rw [show List.replicate xs.length 0 = zeros xs.length from rfl, ← this]
+    rw [show List.replicate xs.length (0 : UInt8) = zeros xs.length from rfl, ← this]
 
 /-- a big-endian field of which only the first `j` bytes have been written over zeros:
     its value is at most the full value, and equal only if the unwritten bytes are zeros anyway -/
@@ -80,26 +84,16 @@ theorem torn_be (d : Bytes) (j : Nat) :
   conv => rhs; rw [hd]
   rw [← this]
 
-theorem beEnc_length (n v : Nat) : (beEnc n v).length = n := by
-  induction n generalizing v with
-  | zero => rfl
-  | succ n ih => simp [beEnc, ih]
+theorem beEnc_length (n v : Nat) : (beEnc n v).length = n := VtProofs.Fmt.length_beEnc n v
 
-theorem beDec_beEnc (n v : Nat) (h : v < 256 ^ n) : beDec (beEnc n v) = v := by
-  induction n generalizing v with
-  | zero => simp [Nat.pow_zero] at h; subst h; rfl
-  | succ n ih =>
-    have : v / 256 < 256 ^ n := by
-      rw [Nat.pow_succ] at h; exact Nat.div_lt_of_lt_mul (by omega)
-    simp only [beEnc]
-    rw [beDec_append, ih _ this]
-    simp [beDec]
-    omega
+theorem beDec_beEnc (n v : Nat) (h : v < 256 ^ n) : beDec (beEnc n v) = v := VtProofs.Fmt.beDec_beEnc n v h
 
 theorem beEnc_zero (n : Nat) : beEnc n 0 = zeros n := by
   induction n with
   | zero => rfl
-  | succ n ih => simp [beEnc, ih, zeros, List.replicate_succ']
+  | succ n ih =>
+    simp only [beEnc, Nat.zero_div, ih, Nat.zero_mod]
+    simp [zeros, List.replicate_succ']
 
 /-! ### positional writes -/
 
